@@ -181,11 +181,25 @@ func TestVerifC10(t *testing.T) {
 				r.Emit(l, "bad-op")
 				continue
 			}
-			r.Emit(l, c10Class(validitywindow.VerifyTimestamp(e, ts, d, w)))
+			got := c10Class(validitywindow.VerifyTimestamp(e, ts, d, w))
+			r.Emit(l, got)
+			if sum := new(big.Int).Add(big.NewInt(ts), big.NewInt(w)); d == 1000 && sum.IsInt64() {
+				want := e%1000 == 0 && e >= ts && big.NewInt(e).Cmp(sum) <= 0
+				if want != (got == "ok") {
+					r.Violation("c10-verifytimestamp-mismatch", "VerifyTimestamp=%s but the interval statement says %v: %s", got, want, l)
+				}
+			}
 		case len(f) == 6 && f[0] == "base":
 			c := c10Case{expiry: verifh.I(f[1]), ts: verifh.I(f[2]), window: verifh.I(f[3]), txChain: verifh.U(f[4]), ruleChain: verifh.U(f[5])}
 			rules, tx := c.build()
-			r.Emit(l, c10Class(tx.Base.Execute(rules, c.ts)))
+			got := c10Class(tx.Base.Execute(rules, c.ts))
+			r.Emit(l, got)
+			if sum := new(big.Int).Add(big.NewInt(c.ts), big.NewInt(c.window)); sum.IsInt64() {
+				want := c.txChain == c.ruleChain && c.expiry%1000 == 0 && c.expiry >= c.ts && big.NewInt(c.expiry).Cmp(sum) <= 0
+				if want != (got == "ok") {
+					r.Violation("c10-base-execute-mismatch", "Base.Execute=%s but the statement says %v: %s", got, want, l)
+				}
+			}
 		case f[0] == "pre":
 			c, ok := c10Parse(f[1:])
 			if !ok {
@@ -197,7 +211,15 @@ func TestVerifC10(t *testing.T) {
 			r.Emit(l, got)
 			clause, overflow := c.statement(c.ts)
 			if overflow {
-				r.Count("oracle:skipped-int64-overflow")
+				// reachable domain (ts >= 0, window >= 0): the wrapped bound is negative, nothing may pass
+				if c.ts >= 0 && c.window >= 0 {
+					r.Count("oracle:int64-overflow-nonneg")
+					if got == "ok" {
+						r.Violation("c10-accepted-on-int64-overflow", "PreExecute returned nil although ts+window overflows int64: %s", l)
+					}
+				} else {
+					r.Count("oracle:excluded-domain-negative-overflow")
+				}
 				continue
 			}
 			if clause != "" || len(c.acts) > 0 || c.authS >= 0 || c.authE >= 0 {
@@ -219,13 +241,20 @@ func TestVerifC10(t *testing.T) {
 			delta := c.expiry
 			rules, _ := c.build()
 			rf := genesis.ImmutableRuleFactory{Rules: rules}
-			before := time.Now().UnixMilli()
-			c.expiry = (before+999)/1000*1000 + delta
-			_, tx := c.build()
-			st := map[string][]byte{feeKey: {}, string(bh.BalanceKey(tx.Auth.Sponsor())): binary.BigEndian.AppendUint64(nil, math.MaxUint64)}
-			pe := chain.NewPreExecutor(&rf, &validitywindowtest.MockTimeValidityWindow[*chain.Transaction]{}, mm, bh)
-			got := c10Class(pe.PreExecute(ctx, nil, state.ImmutableStorage(st), tx))
-			after := time.Now().UnixMilli()
+			var before, after int64
+			var got string
+			for attempt := 0; attempt < 5; attempt++ { // margins are >= 2 s; retry if the host stalled
+				before = time.Now().UnixMilli()
+				c.expiry = (before+999)/1000*1000 + delta
+				_, tx := c.build()
+				st := map[string][]byte{feeKey: {}, string(bh.BalanceKey(tx.Auth.Sponsor())): binary.BigEndian.AppendUint64(nil, math.MaxUint64)}
+				pe := chain.NewPreExecutor(&rf, &validitywindowtest.MockTimeValidityWindow[*chain.Transaction]{}, mm, bh)
+				got = c10Class(pe.PreExecute(ctx, nil, state.ImmutableStorage(st), tx))
+				after = time.Now().UnixMilli()
+				if after-before <= 500 {
+					break
+				}
+			}
 			r.Emit(l, got)
 			r.Distinct(l)
 			// nothing admitted is already expired or too far in the future
@@ -286,9 +315,6 @@ func c10Generate(r *verifh.Run) []string {
 		rng := []int64{-1, ts - 1, ts, ts + 1, -2, mn, mx}
 		for _, e := range []int64{ts, ts + 60_000, ts - 1000, ts + 61_000, ts + 1} {
 			e = e / 1000 * 1000
-			if e%1000 == 0 && ts%1000 != 0 {
-				e += 0
-			}
 			for _, as := range rng[:4] {
 				for _, ae := range rng[:4] {
 					c := c10Case{expiry: e, ts: ts, window: 60_000, txChain: 1, ruleChain: 1, maxActions: 16, authS: as, authE: ae}
